@@ -30,12 +30,26 @@ def main():
     run = core.Run(prop, a.tier, seed)
     scratch = core.scratch_dir("sv_cwd_")
     os.chdir(scratch)          # repo code writes into cwd by default; never dirty /repo or /verif
+    # watchdog: a changed implementation may loop for ever; the check must still end and report.
+    # Quick checks need 20 s - 3 min on this machine (x3 under heavy load), thorough ones <= 20 min.
+    import signal
+    limit = float(os.environ.get("VERIF_WATCHDOG_S", "1500" if a.tier == "quick" else "5400"))
+
+    class CheckTimeout(Exception):
+        pass
+
+    def on_alarm(signum, frame):
+        raise CheckTimeout(f"the check did not finish within {limit:.0f} s (an implementation call does not return?)")
+    signal.signal(signal.SIGALRM, on_alarm)
+    signal.setitimer(signal.ITIMER_REAL, limit)
     try:
         if a.replay:
             rc = mod.replay(run, a.replay)
         else:
             rc = mod.check(run)
+        signal.setitimer(signal.ITIMER_REAL, 0)
     except Exception:
+        signal.setitimer(signal.ITIMER_REAL, 0)
         traceback.print_exc()
         run.obligation("check ran to completion", False, traceback.format_exc()[-1500:])
         rc = run.finish()
